@@ -220,7 +220,7 @@ def bounded(tier, seed, procs):
                            expected="same values, each repeated operation once, no double wrapper", actual=why,
                            functions=["tag_common_subexpressions", "CSEMapper", "UseCountMapper", "NormalizedKeyGetter"]))
     # the argument forms: the same expressions given as a list, a tuple, an iterator, a generator give the same result
-    for lst in lists[:: max(1, len(lists) // 60)]:
+    for lst in trees.thin(lists, 60, seed=1):
         ref = outcome.run(lambda: tag_common_subexpressions(list(lst)))
         for form, mkarg in (("tuple", lambda: tuple(lst)), ("iterator", lambda: iter(lst)), ("generator", lambda: (e for e in lst))):
             r = outcome.run(lambda: tag_common_subexpressions(mkarg()))
